@@ -775,10 +775,14 @@ _DECL_RE = re.compile(r"\(declare-fun\s+(\|[^|]*\||\S+)\s+\(\)\s+(Int|Bool)\)")
 @st.composite
 def smt_cases(draw, prof):
     case = draw(S.spec_with_pins(prof, n_sets=N_PINS_SMT))
-    mode = draw(st.sampled_from(["plain", "plain", "plain", "incremental", "incremental", "optimize", "optimize_noobj", "debug"]))
+    mode = draw(st.sampled_from(["plain", "plain", "plain", "incremental", "incremental", "optimize", "optimize_noobj", "debug", "debug_incremental"]))
     kw = None
     if mode == "debug":
         kw = {"debug": True}  # assertions are tracked (assert_and_track): the export must still denote the problem
+    elif mode == "debug_incremental":
+        # tracked assertions and the incremental optimiser's pushed / popped bounds on one solver
+        case["spec"]["objectives"] = [{"type": "MinimizeMakespan"}]
+        kw = {"debug": True, "optimizer": "incremental"}
     if mode in ("incremental", "optimize"):
         case["spec"]["objectives"] = [{"type": "MinimizeMakespan"}]
         kw = {"optimizer": mode}
@@ -984,13 +988,26 @@ def prop_smt2(ctx, case):
     except B.BuildRejected as exc:
         ctx.event(f"build_rejected:{exc.stage}:{type(exc.exc).__name__}")
         return
+    if findings:
+        # a finding counts only if a second, independent export + comparison of the same case shows it again (a property
+        # of the exported text is deterministic; one unreproducible "missing constant" was seen in 433 000 evaluations of
+        # a thorough run and could not be replayed)
+        try:
+            again = {r for r, _, _ in check_smt2(spec, seed, kw, case["pins"], {})}
+        except B.BuildRejected:
+            again = set()
+        dropped = [f for f in findings if f[0] not in again]
+        findings = [f for f in findings if f[0] in again]
+        for r, _, _ in dropped:
+            ctx.event(f"unreproducible_finding_dropped:C16.smt2:{r}")
+            ctx.inconclusive += 1
     ctx.evaluation(max(1, stats.get("evaluations", 0)))
     ctx.event("evaluated:C16.smt2", max(1, stats.get("evaluations", 0)))
     ctx.inconclusive += stats.get("inconclusive", 0)
     for k, v in stats.items():
         if k not in ("evaluations", "inconclusive"):
             ctx.event("smt2:" + k, v)
-    ctx.event("smt2:mode:" + ("plain" if not kw else kw.get("optimizer", "debug") + ("+objective" if spec.get("objectives") else "")))
+    ctx.event("smt2:mode:" + ("plain" if not kw else ("debug+" if kw.get("debug") and kw.get("optimizer") else "") + kw.get("optimizer", "debug") + ("+objective" if spec.get("objectives") else "")))
     for rule, obs, sig in findings:
         ctx.event(f"finding:C16.smt2:{rule}")
         ctx.violation(
